@@ -289,6 +289,55 @@ func wedge(tier string, seed int64) (evals, nontriv int, kinds map[string]int, v
 		}
 	}
 	nontriv += 6
+	// failing operations must release what they hold: the SAME transaction / vertex submitted several times at once while a DAG stream
+	// with a non-reading consumer keeps the ledger lock busy (every submission passes the unlocked "already known" look-up, then all but
+	// one fail under the lock), plus proposals that fail for the other reasons; after each burst the node must still answer
+	for r := 0; r < reps && len(viol) == 0; r++ {
+		e := newEnv(130) // more vertices than the stream channel buffers: the streamer blocks holding the ledger lock
+		ctxS, cancelS := context.WithCancel(context.Background())
+		ch := e.ab.StreamDAG(ctxS)
+		time.Sleep(20 * time.Millisecond)
+		dup := e.trx()
+		var wg sync.WaitGroup
+		for g := 0; g < 4; g++ {
+			wg.Add(1)
+			go func() { defer wg.Done(); cp := *dup; e.ab.CreateLeaf(context.Background(), &cp) }()
+		}
+		// the same sealed vertex delivered four times at once
+		sn := e.getLast()
+		dv, _ := accountant.NewVertex(*e.trx(), sn.Hash, sn.Hash, sn.Weight+1, e.sealer)
+		for g := 0; g < 4; g++ {
+			wg.Add(1)
+			go func() { defer wg.Done(); cp := dv; e.ab.AddLeaf(context.Background(), &cp) }()
+		}
+		time.Sleep(30 * time.Millisecond) // all of them are queued behind the streamer's lock now
+		cancelS()
+		for range ch {
+		}
+		ok := within(10*time.Second, wg.Wait)
+		evals++
+		kinds["errors.duplicate_submissions_behind_lock"]++
+		if !ok {
+			add("operation-hangs:duplicate-submissions", "four identical proposals and four identical deliveries queued behind a DAG stream did not all return within 10 s")
+		}
+		probe(e, "duplicate-submissions", "identical proposals / deliveries raced behind the ledger lock (all but one fail under the lock)")
+		if len(viol) == 0 {
+			// proposals refused for the other reasons: empty, issued by the node itself, already sealed
+			empty, _ := transaction.New("empty", spice.New(0, 0), nil, e.recv.Address(), e.issuer)
+			e.ab.CreateLeaf(context.Background(), &empty)
+			own, _ := transaction.New("own", spice.New(0, 0), []byte("d"), e.recv.Address(), e.node)
+			e.ab.CreateLeaf(context.Background(), &own)
+			cp := *dup
+			e.ab.CreateLeaf(context.Background(), &cp)
+			evals++
+			kinds["errors.refused_proposals"]++
+			probe(e, "refused-proposals", "proposals refused as empty / own / already sealed")
+		}
+		if len(viol) == 0 {
+			e.close()
+		}
+	}
+	nontriv += 2
 	// the node's OWN truncation loop (not the synchronous hook): weights are announced on a bounded channel while the ledger lock is
 	// held, and the loop takes the ledger lock to truncate - proposals keep arriving from several goroutines across the trigger point
 	if len(viol) == 0 {
